@@ -37,10 +37,13 @@ open Litex Litex.Driver Litex.Stream
         comb += tx_fifo.source.connect(flush_ep); comb += flush_ep.connect(source)
         timer = WaitTimer(timeout*sys_clk_freq); comb += timer.wait.eq(~source.ready)
         sync += flush_count.eq(flush_count + 1)
-        comb += If(timer.done, flush_ep.ready.eq(flush_count == 0))
+        comb += If(timer.done, flush_ep.ready.eq(source.ready | (flush_count == 0)))
 
-    Later comb statements win: the TX FIFO's pop strobe is `timer.done ? (flush_count == 0) : source.ready`, while
-    `source.valid/data` remain the FIFO's.  Everything else is the plain `UART` (`uartTop`). -/
+    Later comb statements win: the TX FIFO's pop strobe is `timer.done ? (source.ready | flush_count == 0) : source.ready`,
+    while `source.valid/data` remain the FIFO's.  Everything else is the plain `UART` (`uartTop`).
+    (Fix `C19-uart-autoflush-duplicate`: before it the flush branch read `flush_count == 0` only, so a character taken by
+    the PHY in a cycle with `timer.done` and `flush_count ≠ 0` stayed in the FIFO and was sent again; `flushPopOld` keeps
+    that behaviour for the negative witness.) -/
 
 structure UartFlushSt where
   top : UartTopSt
@@ -50,7 +53,16 @@ deriving Repr, DecidableEq
 
 /-- `tx_fifo.source.ready`. -/
 def flushPop (s : UartFlushSt) (rdy : Bool) : Bool :=
+  if WaitTimer.done s.cnt then rdy || s.fc == 0 else rdy
+
+/-- The pop strobe before the fix (negative witness only; not served). -/
+def flushPopOld (s : UartFlushSt) (rdy : Bool) : Bool :=
   if WaitTimer.done s.cnt then s.fc == 0 else rdy
+
+def uartFlushNextOld (dtx drx : Nat) (rxWe : Bool) (T k : Nat) (s : UartFlushSt) (i : UartTopIn) : UartFlushSt :=
+  { top := uartTopNext dtx drx rxWe s.top { i with srcRdy := flushPopOld s i.srcRdy }
+    cnt := WaitTimer.next T s.cnt (!i.srcRdy)
+    fc  := (s.fc + 1) % 2 ^ k }
 
 def uartFlushInit (dtx drx T : Nat) : UartFlushSt :=
   { top := { tx := (syncFifoBuffered dtx zTokN).init, rx := (syncFifoBuffered drx zTokN).init }, cnt := T, fc := 0 }
